@@ -242,3 +242,26 @@ void h_refine_pass(void)
   VERIF_CANARY;
 }
 #endif
+
+/* ------------------------------------------------------------------------------------------------
+ * removeoverlaps, write-back after a solve: EVERY rectangle k is moved exactly once, in the pass's dimension, to the final position of variable k --
+ * whether or not k is in the fixed set (fixed rectangles are heavy, not immovable; skipping them leaves their neighbours placed relative to a position
+ * the rectangle does not have).  BOUNDED: 0 to 3 rectangles. */
+#if defined(JOB_writeback)
+void w_writeback(int pass, unsigned n, double f0, double f1, double f2, unsigned nfixed, unsigned fx0, unsigned fx1, int thirdPass); int verif_rect_index(void *r);
+static int moved_n[3], moved_dim_ok[3]; static double moved_to[3]; static int wb_pass;
+void w_moved(void *r, int dim, double to) { int k = verif_rect_index(r); __CPROVER_assert(k >= 0, "SPEC only the caller's rectangles are moved"); if (k >= 0) { moved_n[k]++; moved_to[k] = to; moved_dim_ok[k] = (dim == wb_pass); } }
+void h_writeback(void)
+{
+  int pass, thirdPass; unsigned n, nfixed, fx[2]; double f[3];
+  __CPROVER_assume((pass == 0 || pass == 1) && (thirdPass == 0 || thirdPass == 1) && n <= 3 && nfixed <= 2 && fx[0] < 3 && fx[1] < 3);
+  for (int k = 0; k < 3; ++k) { __CPROVER_assume(!__CPROVER_isnand(f[k])); moved_n[k] = 0; moved_dim_ok[k] = 0; }
+  wb_pass = pass;
+  w_writeback(pass, n, f[0], f[1], f[2], nfixed, fx[0], fx[1], thirdPass);
+  for (unsigned k = 0; k < 3; ++k) {
+    if (k < n) __CPROVER_assert(moved_n[k] == 1 && moved_dim_ok[k] && moved_to[k] == f[k], "SPEC every rectangle, fixed or not, is moved once to its variable's final position in the pass's dimension");
+    else __CPROVER_assert(moved_n[k] == 0, "SPEC nothing beyond the rectangle list is touched");
+  }
+  VERIF_CANARY;
+}
+#endif
